@@ -525,8 +525,13 @@ class Design:
                 return v["width"], v["signed"]
             sel = sels[0]
             if sel[0] == "idx":
+                if sel[1][0] == "num" and sel[1][1] >= v["width"]:
+                    raise VError("bit-select %s[%d] beyond the declared range [%d:0]" % (name, sel[1][1], v["width"] - 1))
                 return 1, False
-            return self.cint(sel[1]) - self.cint(sel[2]) + 1, False
+            hi, lo = self.cint(sel[1]), self.cint(sel[2])
+            if hi >= v["width"] or lo > hi:
+                raise VError("part-select %s[%d:%d] beyond the declared range [%d:0]" % (name, hi, lo, v["width"] - 1))
+            return hi - lo + 1, False
         if k == "un":
             if e[1] in ("!", "&", "|", "^"):
                 return 1, False
